@@ -1431,8 +1431,13 @@ def fixed_cases(ck: Check):
 
 # ====================================================================== run
 def run(ck: Check):
+    t_start = time.time()
     _setup()
+    t_import = time.time() - t_start
     proofs_ok = ck.lean_obligations()
+    ck.coverage['seconds_import_bqskit'] = round(t_import, 1)
+    ck.coverage['seconds_lean_obligations'] = round(
+        time.time() - t_start - t_import, 1)
     if not proofs_ok:
         ck.violation('lean-obligations', 'Props/C06.lean does not check: '
                      + (ck.proof_failure or '')[-1500:], {}, False)
@@ -1448,7 +1453,7 @@ def run(ck: Check):
         dict(small_dim=48, mid_dim=128, max_dim=4096, mid_frac=.25,
              big_frac=.02, lean_dim=256, grad_dim=256, lean_grad_dim=48,
              embedprod_dim=24, build_dim=256, fd=True, n_struct=2)
-    nchunks = 48 if quick else 160
+    nchunks = 40 if quick else 160
     n_circ = 8 if quick else 30
     n_build = 3 if quick else 6
     import os
@@ -1489,6 +1494,7 @@ def run(ck: Check):
                     ck.violation(sig, what, {
                         'case': r['key'], 'generator': GEN_VERSION,
                         'desc': r['desc'], 'driver_lines': r['lines']}, found)
+    ck.coverage['seconds_total'] = round(time.time() - t_start, 1)
     d = ck.coverage.get('distribution', {})
     ck.coverage['traces_validated_against_impl'] = d.get('model_cmp', 0)
     ck.coverage['driver_seconds'] = round(tdrv, 1)
